@@ -179,6 +179,28 @@ func checkSpec(ctx *Ctx, id string) {
 				}
 			}
 		}
+		// deep arities with all their prefixes (rules about "the first k components" and implicit
+		// zero padding are decided between a tuple and its own prefixes), and punctuation pairs
+		// after a numeric and after an alphabetic tail (variants.go)
+		{
+			gen := versionGens[name]
+			var sample []string
+			for i := 0; i < 40; i++ {
+				sample = append(sample, gen(r))
+			}
+			base := "1"
+			if sh := numShapes[name]; sh != nil {
+				base = sh.Prefix + "1"
+			}
+			fam := deepArity(r, base, ".")
+			if len(fam) > 0 {
+				fam = append(fam, tokenPrefixes(fam[len(fam)-1])...)
+			}
+			b2 := base + ".0"
+			fam = append(fam, punctuationPairs(r, b2, sample)...)
+			fam = append(fam, punctuationPairs(r, b2+r.Pick([]string{"a", "rc", "b"}), sample)...)
+			extra = append(fam, extra...)
+		}
 		p, cands := BuildPool(e, r, n+len(extra)/2+120, extra)
 		// reference validity
 		var reqs []string
